@@ -22,22 +22,25 @@ import (
 // LifeScenario is one way a connection lives and dies. It runs in a child
 // process (a crash or a deadlock of the library must not take the harness down).
 type LifeScenario struct {
-	Track        bool   `json:"track"`
-	PingFreqMs   int    `json:"pingfreq_ms"`
-	Flood        bool   `json:"flood"`
-	UseCtx       bool   `json:"use_ctx"`
-	Cause        string `json:"cause"`   // close | eof | readerr | writeerr | cancel | close+eof | close+writeerr | cancel+eof | close+cancel
-	Closers      int    `json:"closers"` // concurrent Close callers
-	AfterLines   int    `json:"after_lines"`
-	InBacklog    int    `json:"in_backlog"` // server lines still unprocessed when the cause strikes
-	InSegments   int    `json:"in_segments"`
-	OutBacklog   int    `json:"out_backlog"` // lines a handler / user goroutine is emitting when the cause strikes
-	OutFrom      string `json:"out_from"`    // handler | user
-	SlowServer   bool   `json:"slow_server"` // server does not read: the outgoing queue fills up
-	ConnectAgain string `json:"connect_again"` // "" | early | mid : Connect called again while connected
-	Reconnect    string `json:"reconnect"`     // "" | handler | goroutine
-	Cycles       int    `json:"cycles"`
-	GoMaxProcs   int    `json:"gomaxprocs"`
+	Track              bool   `json:"track"`
+	PingFreqMs         int    `json:"pingfreq_ms"`
+	Flood              bool   `json:"flood"`
+	UseCtx             bool   `json:"use_ctx"`
+	Cause              string `json:"cause"`   // close | eof | readerr | writeerr | cancel | close+eof | close+writeerr | cancel+eof | close+cancel
+	Closers            int    `json:"closers"` // concurrent Close callers
+	AfterLines         int    `json:"after_lines"`
+	InBacklog          int    `json:"in_backlog"` // server lines still unprocessed when the cause strikes
+	InSegments         int    `json:"in_segments"`
+	OutBacklog         int    `json:"out_backlog"`   // lines a handler / user goroutine is emitting when the cause strikes
+	OutFrom            string `json:"out_from"`      // handler | user
+	SlowServer         bool   `json:"slow_server"`   // server does not read: the outgoing queue fills up
+	ConnectAgain       string `json:"connect_again"` // "" | early | mid : Connect called again while connected
+	Reconnect          string `json:"reconnect"`     // "" | handler | goroutine
+	Cycles             int    `json:"cycles"`
+	GoMaxProcs         int    `json:"gomaxprocs"`
+	BacklogKind        string `json:"backlog_kind"`         // "" (NOTICE lines) | mixed (001 / 433 / JOIN / 352 / MODE: lines whose built-in handlers use Me() and the tracker)
+	ConnectDuringClose bool   `json:"connect_during_close"` // another goroutine calls Connect while Close is waiting for a running handler
+	HandlerPanics      bool   `json:"handler_panics"`       // the gated handler panics (default LogPanic recovery) once released, i.e. during the teardown
 }
 
 type LifeResult struct {
@@ -101,7 +104,7 @@ func libGoroutines() []string {
 			}
 		}
 		if len(frames) > 0 {
-			out = append(out, strings.Join(frames, "<") + " " + state)
+			out = append(out, strings.Join(frames, "<")+" "+state)
 		}
 	}
 	return out
@@ -183,6 +186,9 @@ func runLifeScenario(sc LifeScenario) LifeResult {
 					c.Privmsg("#c", fmt.Sprintf("out %d", i))
 				}
 			}
+			if sc.HandlerPanics {
+				panic("handler panics during teardown")
+			}
 		}
 	})
 
@@ -232,7 +238,7 @@ func runLifeScenario(sc LifeScenario) LifeResult {
 		gw = srv.GateWrites()
 	}
 	// backlog
-	if sc.InBacklog > 0 || (sc.OutBacklog > 0 && sc.OutFrom == "handler") {
+	if sc.InBacklog > 0 || sc.HandlerPanics || (sc.OutBacklog > 0 && sc.OutFrom == "handler") {
 		srv.SendLine(":n!u@h PRIVMSG me :gate")
 		select {
 		case <-entered:
@@ -248,7 +254,24 @@ func runLifeScenario(sc LifeScenario) LifeResult {
 		for s := 0; s < seg && k < sc.InBacklog; s++ {
 			var sb strings.Builder
 			for j := 0; j < per && k < sc.InBacklog; j++ {
-				sb.WriteString(fmt.Sprintf(":n!u@h NOTICE me :backlog %d\r\n", k))
+				if sc.BacklogKind == "mixed" {
+					switch k % 6 {
+					case 0:
+						sb.WriteString(":irc.test 001 me :Welcome again me!ident@host\r\n")
+					case 1:
+						sb.WriteString(fmt.Sprintf(":irc.test 433 me taken%d :Nickname is already in use\r\n", k))
+					case 2:
+						sb.WriteString(fmt.Sprintf(":u%d!i@h JOIN #c\r\n", k))
+					case 3:
+						sb.WriteString(fmt.Sprintf(":irc.test 352 me #c i h s u%d G :0 real\r\n", k-1))
+					case 4:
+						sb.WriteString(":me!ident@host JOIN #c\r\n")
+					default:
+						sb.WriteString(":me MODE me +i\r\n")
+					}
+				} else {
+					sb.WriteString(fmt.Sprintf(":n!u@h NOTICE me :backlog %d\r\n", k))
+				}
 				k++
 			}
 			srv.Send(sb.String())
@@ -275,6 +298,70 @@ func runLifeScenario(sc LifeScenario) LifeResult {
 	if sc.OutBacklog > 0 && sc.OutFrom == "handler" {
 		release() // the handler starts emitting and blocks on the full queue if the server is slow
 		time.Sleep(3 * time.Millisecond)
+	}
+
+	// Connect from another goroutine while Close is waiting for a handler that is still running:
+	// Connect must wait for the teardown, then succeed; both connections get their events
+	if sc.ConnectDuringClose {
+		srv.SendLine(":n!u@h PRIVMSG me :gate")
+		select {
+		case <-entered:
+		case <-time.After(2 * time.Second):
+			res.Notes = append(res.Notes, "gated handler was not entered")
+		}
+		lg.add("cause close")
+		closed := make(chan struct{})
+		go func() { conn.Close(); lg.add("close-ret"); close(closed) }()
+		time.Sleep(3 * time.Millisecond)
+		connected2 := make(chan error, 1)
+		go func() {
+			err := conn.Connect()
+			if err == nil {
+				lg.add("connect-ret ok")
+			} else {
+				lg.add("connect-ret err")
+			}
+			connected2 <- err
+		}()
+		time.Sleep(3 * time.Millisecond)
+		release()
+		select {
+		case <-closed:
+		case <-time.After(4 * time.Second):
+			res.Stuck = strings.Join(libGoroutines(), " | ")
+			res.Log = append([]string(nil), lg.evs...)
+			return res
+		}
+		select {
+		case err := <-connected2:
+			if err == nil {
+				select {
+				case srv2 := <-conns:
+					s2 := &session{conn: conn, srv: srv2}
+					srv2.SendLine(":irc.test 001 me :Welcome me!ident@host")
+					if s2.sync(3*time.Second) && conn.Connected() {
+						lg.add("fresh-up")
+					} else if !conn.Connected() || srv2.Closed() {
+						lg.add("fresh-down connected=%v sockclosed=%v", conn.Connected(), srv2.Closed())
+					}
+				case <-time.After(2 * time.Second):
+					res.Notes = append(res.Notes, "no dial for the concurrent connect")
+				}
+				lg.add("cause close")
+				conn.Close()
+				lg.add("close-ret")
+			}
+		case <-time.After(4 * time.Second):
+			res.Stuck = strings.Join(libGoroutines(), " | ")
+			res.Log = append([]string(nil), lg.evs...)
+			return res
+		}
+		waitFor(func() bool { return lg.count("DISCONNECTED") >= lg.count("REGISTER") }, 4*time.Second)
+		time.Sleep(5 * time.Millisecond)
+		waitFor(func() bool { return len(libGoroutines()) == 0 }, 500*time.Millisecond)
+		res.Leaked = libGoroutines()
+		res.Log = lg.evs
+		return res
 	}
 
 	// the cause
